@@ -1,4 +1,5 @@
 """C07 - message transport obeys the selected network semantics."""
+import re
 from collections import Counter
 
 from actor_rules import ACTIONS, is_usize_from_id, noref
@@ -15,7 +16,7 @@ LEVEL_TEXT = (
     'offers Drop only on a lossy network and Deliver only to existing actors, and at most the head of '
     'each ordered flow. Agreement of len()/iter_all() counts is arithmetic and is not decided.')
 
-FLOORS = {'C07-R1': 4, 'C07-R2': 7, 'C07-R3': 6, 'C07-R4': 4}
+FLOORS = {'C07-R1': 4, 'C07-R2': 7, 'C07-R3': 6, 'C07-R4': 4, 'C07-R5': 4}
 
 NET = 'actor::network::Network::<Msg>::'
 ORDER_BREAKING = ('VecDeque::swap_remove_back', 'VecDeque::swap_remove_front', 'Vec::swap_remove',
@@ -437,3 +438,44 @@ def run(ctx):
         r3_fifo(ctx, F)
     with ctx.rule('C07-R4', 'actions'):
         r4_actions(ctx, F)
+    ctx.doc('C07-R5', 'Network::new_*: every element of `envelopes` is handed to Network::send (or to a constructor that does)')
+    with ctx.rule('C07-R5', 'constructors'):
+        r5_initial_contents(ctx, F)
+
+
+def r5_initial_contents(ctx, F, rule='C07-R5'):
+    """Network::new_*: every initially present envelope enters the network the way a sent one does - each
+    element of `envelopes` is handed to Network::send (or the constructor delegates to one that does), so an
+    envelope listed twice is present twice on a non-duplicating network and queued in order on an ordered one."""
+    from taint import origins
+    ctors = [b for b in F.bodies.values() if b.kind != 'Closure' and
+             re.match(r'^actor::network::Network::<Msg>::new_\w+$', b.path) and b.arg_count >= 1 and
+             'IntoIterator' in b.locals[1]['ty']]
+    if len(ctors) < 3:
+        raise AnchorMissing('Network::new_* constructors taking envelopes (found %d)' % len(ctors))
+    for b0 in ctors:
+        ctx.touched(b0)
+        b = F.norm(b0)
+        ok = False
+        how = ''
+        for c in b.calls:
+            if c.is_('Network::send') and b.in_cycle(c.bb) and len(c.args) >= 2:
+                heads = [h for h in b.calls_to('Iterator::next') if b.in_cycle(h.bb) and b.dominates(h.bb, c.bb)]
+                if not heads:
+                    continue
+                head = max(heads, key=lambda h: len([1 for x in heads if b.dominates(x.bb, h.bb)]))
+                org = origins(b, c.args[1])
+                elem = bool(org) and all(isinstance(o, tuple) and o[0] == 'proj' and o[1] is head for o in org)
+                src = noref(b.trace(b.val(head.args[0]), ('IntoIterator::into_iter',)))
+                some = b.branch(head, 'Some')
+                r = b.reach([e[1] for e in some], cut_blocks=[c.bb]) if some else {head.bb}
+                if elem and src == V('arg', 1) and head.bb not in r:
+                    ok, how = True, 'every element of `envelopes` is sent'
+            elif re.search(r'Network::<Msg>::new_\w+$', c.callee) and c.callee != b0.path and c.args:
+                if any(('arg', 1) in origins(b, a) for a in c.args if a.get('k') in ('copy', 'move')):
+                    ok, how = True, 'delegates to %s' % c.callee.split('::')[-1]
+        ctx.check(ok, rule, 'initial-envelopes-are-sent@%s' % b0.path.split('::')[-1], b0,
+                  good='%s: %s' % (b0.path.split('::')[-1], how),
+                  bad='%s does not hand every element of `envelopes` to Network::send: initially present messages '
+                      'are not held the way sent ones are (copies of one envelope collapse, flows are not queued), so '
+                      'they are not each delivered once or dropped explicitly' % b0.path)
